@@ -5,6 +5,7 @@ unless unsafe code, interior mutability reachable from those types, or global
 state is involved; each of those is excluded by exhaustive enumeration of a
 finite set of items/types/call sites, and the Send/Sync/borrow obligations are
 discharged by rustc itself on witness programs (run_once)."""
+import re
 from . import facts as F
 from .witness import run_witnesses
 from .report import Collector, expect_fixture_hits
@@ -141,16 +142,22 @@ def core(fx, rep, crates, main_crate, roots):
     # ---------------- O3
     ci = fx.crate(main_crate)
     for s in ci['statics']:
+        if s['span'].get('exp') and str(s['span'].get('macro', '')).startswith('#[derive(') and not s['span'].get('macro_local'):
+            rep.ok('O3', 'static-derive-generated/%s' % re.sub(r'::\{.*', '', s['path']), F.loc_of(s['span']),
+                   'generated by %s for the derived impl only (not on the execution path; derived bodies are excluded from every rule)' % s['span'].get('macro'))
+            continue
         okk = (not s['mut']) and s['freeze'] and 'LocalKey' not in s['ty']
         rep.check(okk, 'O3', 'static/%s' % s['path'], F.loc_of(s['span']), 'immutable Freeze static',
                   'static %s is %s' % (s['path'], 'mut' if s['mut'] else 'interior-mutable or thread-local (%s)' % s['ty'][:60]))
     for c in ci['consts']:
+        if 'LocalKey' in c['ty'] and c['span'].get('exp') and str(c['span'].get('macro', '')).startswith('#[derive(') and not c['span'].get('macro_local'):
+            continue
         if 'LocalKey' in c['ty']:
             rep.violation('O3', 'thread_local/%s' % c['path'], F.loc_of(c['span']), 'thread_local! key %s' % c['path'])
     ntl = 0
     for b in fx.bodies.values():
-        if b.crate != main_crate:
-            continue
+        if b.crate != main_crate or b.is_derived():
+            continue      # derive-generated bodies (std derives, thiserror, arbitrary) are compiler/derive output, not interpreter logic
         for i, j, s in b.stmts():
             if s['k'] == 'Assign' and s['rv']['k'] == 'ThreadLocalRef':
                 ntl += 1
@@ -160,8 +167,8 @@ def core(fx, rep, crates, main_crate, roots):
     ncalls = 0
     mm = 0
     for b in fx.bodies.values():
-        if b.crate != main_crate:
-            continue
+        if b.crate != main_crate or b.is_derived():
+            continue      # derive-generated bodies (std derives, thiserror, arbitrary) are compiler/derive output, not interpreter logic
         pv = None
         for bi, t in b.calls():
             ncalls += 1
